@@ -442,11 +442,68 @@ inductive Ctx where
   | tokioCurrentThread
   deriving Repr, DecidableEq
 
-/-- How `tokio::blocking_flush` / `tokio::blocking_send` wait in a given context (tokio.rs:51-58, 78-90). -/
-inductive BlockingPath where
-  | condvar          -- `sync::blocking_*` on the calling thread
-  | blockInPlace     -- `tokio::task::block_in_place` around the condvar path (multi-thread runtime worker)
-  | handleBlockOn    -- `Handle::block_on` from inside a runtime: tokio panics ("Cannot start a runtime …")
+/-- Which module's blocking entry points are called. -/
+inductive Api where
+  | sync     -- `emit_batcher::sync::{blocking_flush, blocking_send}`
+  | tokio    -- `emit_batcher::tokio::{blocking_flush, blocking_send}`
   deriving Repr, DecidableEq
+
+/-- How a blocking entry point waits. -/
+inductive BlockingPath where
+  | condvar          -- `sync::blocking_*` on the calling thread (condvar + `Trigger::wait_timeout`)
+  | blockInPlace     -- the same inside `tokio::task::block_in_place` (worker of a multi-thread runtime)
+  | handleBlockOn    -- `Handle::block_on` from a thread that drives a runtime: tokio panics
+  deriving Repr, DecidableEq
+
+/-- `tokio::block_in_place_if_possible` (tokio.rs, after fix D3): `Handle::try_current()` succeeds inside both
+    runtime flavours; only the multi-thread flavour may `block_in_place`; everything else runs the condvar path
+    directly. (Before the fix both runtime contexts took `Handle::block_on`, i.e. `handleBlockOn`.)
+    `sync::*` never looks at the context. -/
+def blockingPath : Api → Ctx → BlockingPath
+  | .sync, _ => .condvar
+  | .tokio, .plainThread => .condvar
+  | .tokio, .tokioMultiThread => .blockInPlace
+  | .tokio, .tokioCurrentThread => .condvar
+
+/-- tokio's documented behaviour (parameter table, trusted): `block_in_place` is legal on a multi-thread worker
+    and panics on a current-thread runtime; `Handle::block_on` panics on any thread that is driving a runtime;
+    a condvar wait is legal anywhere. -/
+def pathPanics : BlockingPath → Ctx → Bool
+  | .condvar, _ => false
+  | .blockInPlace, .tokioCurrentThread => true
+  | .blockInPlace, _ => false
+  | .handleBlockOn, .plainThread => false
+  | .handleBlockOn, _ => true
+
+/-- Receiver the blocking call runs against (stream `batcher_blocking`). -/
+inductive RxKind where
+  | live | stalled | gone
+  deriving Repr, DecidableEq
+
+/-- The channel state before the blocking call: receiver dropped or not, then `prefill` plain sends. -/
+def prefillState (cfg : Cfg) (rx : RxKind) (prefill : Nat) : St :=
+  let s0 := if rx = .gone then (dropReceiver init).getD init else init
+  (List.range prefill).foldl (fun s i => send cfg s (i + 1)) s0
+
+/-- `sync::blocking_flush` (sync.rs:65-90): register a callback that sets the trigger, then `wait_timeout`.
+    The wake-ups are what the runtime delivers: against a live receiver the callback runs (bounded liveness,
+    C08 `callbacks_fire_bounded`) and notifies the condvar; against a stalled or dropped one the wait times out. -/
+def blockingFlush (cfg : Cfg) (rx : RxKind) (prefill timeout : Nat) : Option Bool :=
+  let s := whenFlushed (prefillState cfg rx prefill) 0
+  let flag0 := decide (0 ∈ s.fired)
+  let wakes : List CvWake := match rx with
+    | .live => [{ flag := true, timedOut := false, elapsed := 0 }]
+    | _ => [{ flag := false, timedOut := true, elapsed := timeout }]
+  waitTimeout timeout flag0 wakes
+
+/-- `sync::blocking_send` (sync.rs:97-140) = `send_or_wait` with the condvar wait. Against a live receiver the
+    queue has been taken when the wait returns; against a stalled one the wait lasts until the timeout. -/
+def blockingSend (cfg : Cfg) (rx : RxKind) (prefill timeout : Nat) (x : Nat) : Option SendRes :=
+  let s := prefillState cfg rx prefill
+  let first := (trySend cfg s x).2
+  let obs : List (Nat × TryRes) := match rx with
+    | .live => [(0, .ok)]
+    | _ => [(0, first), (timeout, first)]
+  sendOrWait timeout first obs
 
 end EmitModel.Batcher
